@@ -63,3 +63,14 @@ Qed.
 Print Assumptions src_op_floordiv_eq.
 Print Assumptions src_op_lshift_eq.
 Print Assumptions src_op_rshift_eq.
+
+(* ---- wbs[id]: WBS.__getitem__ of wbs.py - the first member with that id in WBS order, RuntimeError when none ---- *)
+Theorem src_wbs_getitem_eq : forall s w i,
+  src_wbs_getitem (S (length (hp s))) (hp s) (wroot s w) i = wbs_getitem s w i.
+Proof.
+  intros s w i. unfold src_wbs_getitem, wbs_getitem, wbs_tasks. rewrite src_all_children_eq.
+  destruct (all_children (hp s) (wroot s w)) as [l| |k]; cbn [bind]; [|reflexivity|reflexivity].
+  destruct (find _ l); reflexivity.
+Qed.
+
+Print Assumptions src_wbs_getitem_eq.
